@@ -228,7 +228,7 @@ def split_lines(text):
 def run(tier):
     rep = Report("C19", tier)
     s = seed()
-    n = 250 if tier == "quick" else 6000
+    n = 250 if tier == "quick" else common.tscale(6000)
     cases, meta = [], {}
     rcases = []
     for i in range(n):
